@@ -25,6 +25,7 @@ import (
 	"math/big"
 	mrand "math/rand"
 	"net/http"
+	"net/http/httptest"
 	"net/url"
 	"path/filepath"
 	"reflect"
@@ -948,7 +949,7 @@ func (f *c15Fixture) probes() []c15Probe {
 				la, ok := e.st.localAuthData["alice"]
 				e.st.Mutex.Unlock()
 				if !ok || la.WebAuthnChallenge == nil {
-					e.t.Fatalf("no webauthn challenge for alice")
+					return nil // the login could not even be begun
 				}
 				return f.jsonRequest(webAuthnAuthFinishPath, "alice", f.dev.assertion(la.WebAuthnChallenge.Challenge, u2fAppID, u2fAppID))
 			}},
@@ -1041,6 +1042,9 @@ func TestVerif_C15(t *testing.T) {
 	runHistory := func(i int, body func(h *c15Hist)) {
 		e.wipe()
 		h := &c15Hist{e: e, rng: rng, pool: pool, poolIdx: poolIdx, jwsData: map[string]int{}, enumSync: i < nEnum, allKinds: i >= 0 && i < nAllKinds, no: i + 1}
+		if len(res.Hits) > 150 { // plenty of failing inputs already: no more enumeration of fault points
+			h.enumSync, h.allKinds = false, false
+		}
 		body(h)
 		e.setMode(c15Up)
 		totalFaults += h.faults
@@ -1179,6 +1183,9 @@ func TestVerif_C15(t *testing.T) {
 				pr.pre()
 			}
 			req := pr.req()
+			if req == nil {
+				t.Fatalf("%s: the request cannot be built", pr.name)
+			}
 			e.setMode(m)
 			bp, bc := e.snapP(), e.snapC()
 			rr, _ := e.env.serve(req)
@@ -1230,12 +1237,16 @@ func TestVerif_C15(t *testing.T) {
 			}
 			req := pr.req()
 			bp, bc := e.snapP(), e.snapC()
-			rr, _ := e.env.serve(req)
+			rr := httptest.NewRecorder()
+			rr.Code = 0
+			if req != nil {
+				rr, _ = e.env.serve(req)
+			}
 			time.Sleep(60 * time.Millisecond)
 			e.dirty = false
 			ap, ac := e.snapP(), e.snapC()
 			cls := c15Classify(bp, ap, pr.target)
-			served := rr.Code < 400
+			served := req != nil && rr.Code < 400
 			kase := map[string]interface{}{"request": pr.name, "mode": c15ModeNames[m], "target": pr.target, "restarted": true}
 			c15OutageOracle(e, pr.name, m, rr.Code, bp, ap, bc, ac, kase)
 			if !served || !cacheBefore.equal(bc) {
